@@ -615,9 +615,6 @@ func (b *Blinder) calculateOutputScalar(
 			return nil, err
 		}
 	}
-	if !lastBlinder {
-		return scalar, nil
-	}
 	return b.generator.SubtractScalars(scalar, inputScalar)
 }
 
